@@ -148,6 +148,35 @@ def check_merge(sigs, outcome, maxn=None, calls=None):
     return bad
 
 
+def ua_bad(p, contribs):
+    """C11 on a concrete result parameter: its upgraded annotation's source_value() is empty iff it is not annotated,
+    and otherwise is what the wrapper of a contributing input parameter with the same annotation yields (the object
+    the annotation denotes in the globals of the function that defined it)"""
+    try:
+        sv = p.upgraded_annotation.source_value()
+    except Exception as e:
+        return 'source_value() raised %r' % (e,)
+    if p.annotation is p.empty:
+        return None if sv is p.empty else 'not annotated but source_value() = %r' % (sv,)
+    want = []
+    for c in contribs:
+        if c is not None and c.annotation is not c.empty and c.annotation == p.annotation:
+            try:
+                want.append(c.upgraded_annotation.source_value())
+            except Exception as e:
+                want.append('<raised %r>' % (e,))
+    if not any(sv == w for w in want):
+        return 'source_value() = %r, contributors denote %r' % (sv, want)
+    return None
+
+
+def ua_return_bad(res, first):
+    a, b = res.upgraded_return_annotation.source_value(), first.upgraded_return_annotation.source_value()
+    if res.return_annotation != first.return_annotation or a != b:
+        return 'return annotation %r/%r vs %r/%r' % (res.return_annotation, a, first.return_annotation, b)
+    return None
+
+
 def check_merge_meta(sigs, res):
     """C10 on a concrete merge result: contributors of a result parameter = the input parameters of the same
     name (valid reading when every shared name is role-consistent)"""
@@ -172,9 +201,12 @@ def check_merge_meta(sigs, res):
         for c in contrib:
             if not (p.kind == c.kind or (c.kind == c.POSITIONAL_OR_KEYWORD and p.kind in (p.POSITIONAL_ONLY, p.KEYWORD_ONLY))):
                 bad.append(('post:meta_kind_only_restricts', p.name))
-        ua = p.upgraded_annotation.source_value()
-        if ua != p.annotation:
-            bad.append(('post:ua_follows', '%s: %r vs %r' % (p.name, ua, p.annotation)))
+        u = ua_bad(p, contrib)
+        if u:
+            bad.append(('post:ua_follows', '%s: %s' % (p.name, u)))
+    u = ua_return_bad(res, sigs[0])
+    if u:
+        bad.append(('post:ua_follows:return', u))
     return bad
 
 
@@ -227,14 +259,14 @@ def check_meta_subset(sig, res, allow_partial_defaults=None):
             exp_default = allow_partial_defaults[p.name]
         if p.default != exp_default or p.annotation != o.annotation:
             bad.append(('post:meta_unchanged_but_kind', '%s default/annotation changed' % p.name))
-        if p.upgraded_annotation.source_value() != p.annotation:
-            bad.append(('post:ua_follows', p.name))
+        if ua_bad(p, [o]):
+            bad.append(('post:ua_follows', '%s: %s' % (p.name, ua_bad(p, [o]))))
         if p.kind in (p.POSITIONAL_ONLY, p.POSITIONAL_OR_KEYWORD):
             order.append(names.index(p.name))
     if order != sorted(order):
         bad.append(('post:meta_unchanged_but_kind:order', repr(order)))
-    if res.return_annotation != sig.return_annotation or res.upgraded_return_annotation.source_value() != res.return_annotation:
-        bad.append(('post:ua_follows:return', 'return annotation'))
+    if ua_return_bad(res, sig):
+        bad.append(('post:ua_follows:return', ua_return_bad(res, sig)))
     return bad
 
 
@@ -450,13 +482,13 @@ def check_embed(outer, inner, uv, uk, outcome, maxn=None):
                     after = after[after.index(p) + 1:]
                     if not any(q.kind in (q.POSITIONAL_ONLY, q.POSITIONAL_OR_KEYWORD) and q.default is q.empty and q.name not in named(outer) for q in after):
                         bad.append(('post:meta_defaults', '%s outer default dropped without a required inner positional after it' % p.name))
-            if p.upgraded_annotation.source_value() != p.annotation:
-                bad.append(('post:ua_follows', p.name))
+            if ua_bad(p, [outer.parameters.get(p.name), inner.parameters.get(p.name)]):
+                bad.append(('post:ua_follows', '%s: %s' % (p.name, ua_bad(p, [outer.parameters.get(p.name), inner.parameters.get(p.name)]))))
         for k, lab in seq.items():
             if 'inner' in lab and 'outer' in lab[lab.index('inner'):]:
                 bad.append(('post:meta_outer_before_inner', '%s: %r' % (k, lab)))
-    if res.return_annotation != outer.return_annotation or res.upgraded_return_annotation.source_value() != res.return_annotation:
-        bad.append(('post:ua_follows:return', 'return annotation'))
+    if ua_return_bad(res, outer):
+        bad.append(('post:ua_follows:return', ua_return_bad(res, outer)))
     for c, d in check_sources_wf(res, fn_declares):
         bad.append(('post:' + c, d))
     if not shared:
@@ -557,8 +589,8 @@ def check_forwards(outer, inner, n, names, fl, outcome, maxn=None):
                 bad.append(('post:exact', 'call %r' % ((m, ks),)))
                 break
     for p in res.parameters.values():
-        if p.upgraded_annotation.source_value() != p.annotation:
-            bad.append(('post:ua_follows', p.name))
+        if ua_bad(p, [outer.parameters.get(p.name), inner.parameters.get(p.name)]):
+            bad.append(('post:ua_follows', '%s: %s' % (p.name, ua_bad(p, [outer.parameters.get(p.name), inner.parameters.get(p.name)]))))
         if fl.get('partial') and p.name in inner.parameters and p.name not in outer.parameters and p.kind not in (p.VAR_POSITIONAL, p.VAR_KEYWORD) and p.default is p.empty:
             bad.append(('post:meta_partial_all_optional', p.name))
     for c, d in check_sources_wf(res, fn_declares):
@@ -661,6 +693,9 @@ def check_partial(fn, pobj, n, kw, outcome, maxn=None):
         if k != '+depths' and k not in res.parameters:
             bad.append(('post:partial_sources:key_is_parameter', k))
     for p in res.parameters.values():
-        if p.upgraded_annotation.source_value() != p.annotation:
+        want = p.annotation
+        if isinstance(want, str) and p.name in d.parameters:
+            want = eval(want, fn.__globals__, {})
+        if p.upgraded_annotation.source_value() != want:
             bad.append(('post:ua_follows', p.name))
     return bad
